@@ -392,6 +392,13 @@ def _parse_main(p, sc, self_ids):
                 continue
         if e.get('k') == 'if':
             th = strip(e['th'])
+            # index shifts must not be conditional: remember them, G5 reports
+            cm = [x for x, _ in walk(e) if x.get('k') == 'call' and callee(x) and cname(callee(x)).split('::')[-1] == 'merge_delta_to_total_new_to_delta']
+            if cm:
+                sc.cond_merges = getattr(sc, 'cond_merges', []) + [(e, cm)]
+                for m_ in cm:
+                    sc.merges.append(m_); sc.order.append(('merge', m_))
+                continue
             # `if !changed { break }`
             has_break = any(x.get('k') == 'break' for x, _ in walk(th))
             has_ret = any(x.get('k') == 'ret' for x, _ in walk(th))
